@@ -20,6 +20,7 @@ INVARIANT ResultClass
 INVARIANT OperandsContained
 INVARIANT RejectionDocumented
 INVARIANT EqIsEquivalence
+INVARIANT EqualHashEqual
 INVARIANT NeutralOps
 PROPERTY HeapImmutable
 CHECK_DEADLOCK FALSE
